@@ -22,10 +22,18 @@ def refines : Ty → CType → Bool
   | .agg u t a, .agg u' t' a' => u == u' && t == t' && (!a' || a)
   | _, _ => false
 
+/-- the qualifier loop of `pointers` on a pointer `Type`: the flag is set iff `_Atomic` is among the qualifiers -/
+theorem applyQuals_ptr (qs : List PQual) (b : Ty) (a : Bool) :
+    applyQuals qs (.ptr b a) = .ptr b (a || qs.contains .atomic) := by
+  induction qs generalizing a with
+  | nil => simp [applyQuals]
+  | cons q qs ih =>
+    cases q <;> simp [applyQuals, PQual.applyTo, Ty.setAtomic, ih]
+
 theorem refines_apply (d : Declr) : ∀ {t : Ty} {T : CType}, refines t T = true → refines (d.apply t) (declType d T) = true := by
   induction d with
   | name => intro t T h; simpa [Declr.apply, declType] using h
-  | ptr d ih => intro t T h; exact ih (by simp [refines, pointerTo, h])
+  | ptr d qs ih => intro t T h; exact ih (by simp [refines, pointerTo, applyQuals_ptr, h])
   | arr d n ih => intro t T h; exact ih (by simp [refines, arrayOf, h])
   | fn d ih => intro t T h; exact ih (by simp [refines, funcType, h])
   | paren d ih => intro t T h; exact ih h
@@ -664,6 +672,49 @@ theorem elabDecls_accepts : ∀ (ds : List Decl) {m : Env} {s s' : SEnv}, RelEnv
       obtain ⟨m1, hm1⟩ := elabDecl_accepts h d h1 (hnb d (by simp))
       obtain ⟨m', hm'⟩ := elabDecls_accepts rest (elabDecl_rel h d h1 hm1) hs (fun x hx => hnb x (by simp [hx]))
       exact ⟨m', by simp [elabDecls, hm1, hm', bind, Except.bind]⟩
+
+/-! ### a declared atomic pointer -/
+
+theorem specDecls_append (ds : List Decl) (d : Decl) : ∀ env : SEnv,
+    specDecls env (ds ++ [d]) = (specDecls env ds).bind (fun e => specDecl e d) := by
+  induction ds with
+  | nil =>
+    intro env
+    simp only [List.nil_append, specDecls, bind, Option.bind]
+    cases specDecl env d <;> rfl
+  | cons d0 ds ih =>
+    intro env
+    simp only [List.cons_append, specDecls, bind, Option.bind]
+    cases specDecl env d0 with
+    | none => rfl
+    | some e1 => simpa [bind, Option.bind] using ih e1
+
+/-- after any declarations, `[_Atomic] s * Q… x;` with `_Atomic` among the qualifiers `Q…` makes `x` an atomic lvalue of
+    pointer type in the C semantics -/
+theorem atomicLvalue_declared_pointer (ds : List Decl) (x : String) (s : TSpec) (kw : Bool) (qs : List PQual)
+    (hq : PQual.atomic ∈ qs) (senv : SEnv)
+    (hspec : specDecls {} (ds ++ [.var x s kw (.ptr .name qs)]) = some senv) :
+    ∃ P, atomicLvalue senv (.var x) = some (.ptr P true) := by
+  rw [specDecls_append] at hspec
+  obtain ⟨e0, _, h1⟩ := bind_some hspec
+  simp only [specDecl, bind, Option.bind] at h1
+  cases h2 : declaredType e0 s kw (.ptr .name qs) with
+  | none => simp [h2] at h1
+  | some t =>
+    simp only [h2] at h1
+    simp only [declaredType, bind, Option.bind] at h2
+    cases h3 : specType e0 s with
+    | none => simp [h3] at h2
+    | some T1 =>
+      simp only [h3] at h2
+      cases h4 : qualified T1 kw with
+      | none => simp [h4] at h2
+      | some Q =>
+        simp [h4, declType] at h2
+        subst h2
+        simp [pure] at h1
+        subst h1
+        exact ⟨Q, by simp [atomicLvalue, typeOf, List.lookup, isObjectLv, CType.isAtomic, bind, Option.bind, pure, hq]⟩
 
 /-! ### the update -/
 
